@@ -1591,8 +1591,14 @@ def eval_routes_case(ctx, c, rep):
             if zb is None or not zones_equal(zA, zb):
                 ctx.fail(f"C09/routes/read/{name}/differs", f"{name} gave {how}, a zone other than from_text(str) on {base!r}", rep)
         # check_origin default (True) on a zone that has SOA and NS at the apex
+        # what the apex of the zone written holds (a signature covering CNAME among the records displaces the rest)
+        apex = z.nodes.get(dns.name.empty if rel else O)
+        apex_types = set() if apex is None else {dns.rdatatype.to_text(r.rdtype) for r in apex.rdatasets if len(r) > 0}
         how, zc = _outcome(lambda: dns.zone.from_file(path, origin=give, relativize=rrel))
-        if zc is None or not zones_equal(zA, zc):
+        if not {"SOA", "NS"} <= apex_types:
+            if zc is not None or how not in ("err NoSOA", "err NoNS"):
+                ctx.fail("C09/routes/read/from_file/defaults/apex-unchecked", f"from_file with default check_origin gave {how} on {base!r}", rep)
+        elif zc is None or not zones_equal(zA, zc):
             ctx.fail("C09/routes/read/from_file/defaults/differs", f"from_file with default check_origin gave {how} on {base!r}", rep)
     finally:
         shutil.rmtree(d, ignore_errors=True)
